@@ -369,7 +369,7 @@ func TestVerifC39Render(t *testing.T) {
 	opRegisterEnv(t)
 	scheme := opScheme(t)
 	ctx := context.Background()
-	n := r.N(400, 5000)
+	n := r.N(300, 5000)
 	directed := opDirected()
 	for ci := 0; ci < n; ci++ {
 		rng := r.Rand(ci)
@@ -515,7 +515,7 @@ func TestVerifC39Publish(t *testing.T) {
 	defer cli.Close()
 	scheme := opScheme(t)
 	ctx := context.Background()
-	n := r.N(60, 800)
+	n := r.N(50, 800)
 	directed := opDirected()
 	for ci := 0; ci < n; ci++ {
 		rng := r.Rand(ci)
